@@ -72,6 +72,8 @@ pub enum HostFault {
     ResetAfter,                  // process (state changes) then reset instead of answering
     Stall(u64),                  // wait ms then answer normally
     CutResponse(usize),          // answer normally but cut after n bytes and close
+    /// acquire only: issue a key but deliver its document in a defective form that still contains the value
+    KeyDoc(String),
 }
 
 pub struct HostState {
@@ -417,6 +419,10 @@ fn handle(st: &Shared, host: &'static str, conn: u64, idx: usize, m: Msg) -> Ans
     if let Some(HostFault::Status(_)) | Some(HostFault::StatusWithBody(..)) | Some(HostFault::MalformedBody(..)) = fault {
         process = false;
     }
+    let key_doc_variant = match &fault {
+        Some(HostFault::KeyDoc(v)) if kind == "acquire" => Some(v.clone()),
+        _ => None,
+    };
     let faulted = fault.is_some();
     ans = match kind {
         "status" => {
@@ -430,7 +436,37 @@ fn handle(st: &Shared, host: &'static str, conn: u64, idx: usize, m: Msg) -> Ans
         }
         "acquire" => {
             g.acquire_calls += 1;
-            if process {
+            if let (true, Some(variant)) = (process, key_doc_variant.as_ref()) {
+                let (guid, mut key) = g.new_key();
+                match variant.as_str() {
+                    "nonhex" => {
+                        key.pop();
+                        key.push('Z');
+                        g.issued.insert(guid.clone(), key.clone());
+                    }
+                    "oddlen" => {
+                        key.pop();
+                        g.issued.insert(guid.clone(), key.clone());
+                    }
+                    _ => {}
+                }
+                let h = format!("acquire#{} issued {} in defective form {}", g.acquire_calls, guid, variant);
+                g.history.push(h);
+                let full = json!({"authorizationScheme": "Azure-HMAC-SHA256", "guid": guid, "issued": "2027-01-15T08:00:00Z", "key": key});
+                let (body, ctype): (Vec<u8>, &str) = match variant.as_str() {
+                    "missing_issued" => (serde_json::to_vec(&json!({"authorizationScheme": "Azure-HMAC-SHA256", "guid": guid, "key": key})).unwrap(), "application/json; charset=utf-8"),
+                    "wrong_type" => (serde_json::to_vec(&json!({"authorizationScheme": "Azure-HMAC-SHA256", "guid": guid, "issued": "x", "incarnationId": "one", "key": key})).unwrap(), "application/json; charset=utf-8"),
+                    "truncated" => {
+                        let b = serde_json::to_vec(&full).unwrap();
+                        let n = b.len() - 2;
+                        (b[..n].to_vec(), "application/json; charset=utf-8")
+                    }
+                    "utf16" => (serde_json::to_string(&full).unwrap().encode_utf16().flat_map(|u| u.to_le_bytes()).collect(), "application/json; charset=utf-16"),
+                    "xml_type" => (serde_json::to_vec(&full).unwrap(), "text/xml; charset=utf-8"),
+                    _ => (serde_json::to_vec(&full).unwrap(), "application/json; charset=utf-8"),
+                };
+                simple(200, ctype, &body)
+            } else if process {
                 let (guid, key) = g.new_key();
                 let h = format!("acquire#{} issued {}", g.acquire_calls, guid);
                 g.history.push(h);
@@ -517,6 +553,7 @@ fn handle(st: &Shared, host: &'static str, conn: u64, idx: usize, m: Msg) -> Ans
             ans.cut_after = Some(n);
             ans.close = true;
         }
+        Some(HostFault::KeyDoc(_)) => {}
         None => {}
     }
     if kind == "status" && !faulted && ans.status == 200 {
